@@ -7,6 +7,7 @@ import ast
 import re
 
 from ..core import AnalysisError, norm, walk_no_nested, calls_in, call_name, last_attr, parent, dotted_name
+from ..consteval import try_fold
 from ..cfg import CFG, guard_conditions
 from . import setorder
 
@@ -52,7 +53,6 @@ SET_AUDIT = {
 }
 
 SET_AUDIT.update({
-    ("subset/__init__.py", "subset_glyphs", 'dictcomp over s.glyphs: {g: strike[g] for g in s.glyphs if g in strike}'): "glyph-name-keyed table dict: compile and toXML of these tables walk the font's glyph order / sort by glyph id (hmtx, vmtx, hdmx, glyf, sbix, COLR v0, AAT lookups spot-checked), so insertion order never reaches output",
     ("subset/__init__.py", "subset_glyphs", 'dictcomp over s.glyphs: {g: strike.glyphs[g] for g in s.glyphs if g in strike.glyphs}'): "glyph-name-keyed table dict: compile and toXML of these tables walk the font's glyph order / sort by glyph id (hmtx, vmtx, hdmx, glyf, sbix, COLR v0, AAT lookups spot-checked), so insertion order never reaches output",
     ("subset/__init__.py", "subset_glyphs", 'for g in s.glyphs_emptied'): "glyph-name-keyed table dict: compile and toXML of these tables walk the font's glyph order / sort by glyph id (hmtx, vmtx, hdmx, glyf, sbix, COLR v0, AAT lookups spot-checked), so insertion order never reaches output; or per-glyph in-place emptying",
     ("subset/__init__.py", "subset_glyphs", 'dictcomp over s.glyphs: {g: prop.Properties.get(g, prop.DefaultProperties) for g in s.glyphs}'): "glyph-name-keyed table dict: compile and toXML of these tables walk the font's glyph order / sort by glyph id (hmtx, vmtx, hdmx, glyf, sbix, COLR v0, AAT lookups spot-checked), so insertion order never reaches output",
@@ -552,6 +552,72 @@ def audit_discharge(ctx, repo):
             continue
         unsorted = [n for n in ast.walk(fx.node) if isinstance(n, ast.comprehension) and norm(n.iter) in ("s.glyphs", "s.glyphs_retained", "s.glyphs_requested")]
         ctx.ob("F12d", fx.where, "most_common() over a per-glyph dict: the dict is built in sorted glyph order", not unsorted, "" if not unsorted else f"dict built by iterating the set {norm(unsorted[0].iter)}: a tie is broken by hash order")
+    # a per-glyph dict (or a list of them) that the subsetter rebuilds by iterating the set s.glyphs is harmless only while
+    # no table code walks that dict: every loop over `<x>.<attr>` / `.items()` / `.keys()` / `.values()` of the rebuilt
+    # attribute in ttLib/tables must be sorted (K47: EBDT.toXML walked strikeData's dicts)
+    rebuilt = {}
+    for q, fx in sorted(sm.funcs.items()):
+        if fx.node.name != "subset_glyphs":
+            continue
+        for st in walk_no_nested(fx.node):
+            if not isinstance(st, ast.Assign):
+                continue
+            comps = [c for c in ast.walk(st.value) if isinstance(c, ast.DictComp) and any(norm(g.iter) in ("s.glyphs", "s.glyphs_retained", "s.glyphs_requested") for g in c.generators)]
+            if not comps:
+                continue
+            t = st.targets[0]
+            attr = t.attr if isinstance(t, ast.Attribute) else None
+            if attr is None and isinstance(t, ast.Name):
+                # a local later stored on the table: self.strikeData = [... for strike in strikeData ...]
+                for st2 in walk_no_nested(fx.node):
+                    if isinstance(st2, ast.Assign) and isinstance(st2.targets[0], ast.Attribute) and any(isinstance(x, ast.Name) and x.id == t.id for x in ast.walk(st2.value)):
+                        attr = st2.targets[0].attr
+            if attr:
+                rebuilt.setdefault(attr, fx)
+    from .. import inject as _inject
+
+    tagcls = _inject.all_table_tags(repo)
+    for attr, fx in sorted(rebuilt.items()):
+        walkers = []
+        # the modules that implement the table the handler is attached to: its table module and the ttLib/tables
+        # modules that one imports (sbixStrike, BitmapGlyphMetrics, ...); a subclass module (CBDT for EBDT) inherits them
+        tags = [try_fold(d.args[0].args[0]) for d in fx.node.decorator_list if isinstance(d, ast.Call) and d.args and isinstance(d.args[0], ast.Call) and d.args[0].args]
+        mods = set()
+        for tg in tags:
+            c_ = tagcls.get(tg) or tagcls.get((tg or "").ljust(4))
+            if c_ is not None:
+                mods.add(c_.mod.rel)
+                for dotted in c_.mod.imports.values():
+                    r_ = repo.resolve_dotted(dotted) if dotted.startswith("fontTools.ttLib.tables") else None
+                    if r_ and r_[0] in ("module",):
+                        mods.add(r_[1].rel)
+                    elif r_ and r_[0] in ("class", "func"):
+                        mods.add(r_[1].mod.rel)
+        for rel in sorted(mods or [r for r in repo.rels() if r.startswith("ttLib/tables/")]):
+            md = repo.mod(rel)
+            for n in ast.walk(md.tree):
+                if not isinstance(n, (ast.For, ast.comprehension)):
+                    continue
+                it = n.iter
+                while isinstance(it, ast.Call) and isinstance(it.func, ast.Name) and it.func.id in ("enumerate", "list", "zip", "iter") and it.args:
+                    it = it.args[-1] if it.func.id == "zip" else it.args[0]
+                base = it.func.value if isinstance(it, ast.Call) and isinstance(it.func, ast.Attribute) and it.func.attr in ("items", "keys", "values") else it
+                if not (isinstance(base, ast.Attribute) and base.attr == attr):
+                    continue
+                # a list of per-glyph dicts: the loop over the list is fine, a nested loop over an element's items is the walker
+                tgt = n.target
+                elem = {x.id for x in ast.walk(tgt) if isinstance(x, ast.Name)}
+                inner = [m2 for m2 in ast.walk(n if isinstance(n, ast.For) else parent(n)) if isinstance(m2, (ast.For, ast.comprehension)) and m2 is not n and isinstance(m2.iter, ast.Call) and isinstance(m2.iter.func, ast.Attribute) and m2.iter.func.attr in ("items", "keys", "values") and isinstance(m2.iter.func.value, ast.Name) and m2.iter.func.value.id in elem]
+                is_mapping_walk = isinstance(it, ast.Call) and isinstance(it.func, ast.Attribute) and it.func.attr in ("items", "keys", "values")
+                # handed to populateCOLRv0 together with a glyphMap: sorted there (discharged above)
+                pc = parent(n) if isinstance(n, ast.comprehension) else None
+                while pc is not None and not isinstance(pc, (ast.Call, ast.stmt)):
+                    pc = parent(pc)
+                if isinstance(pc, ast.Call) and call_name(pc) and call_name(pc).endswith("populateCOLRv0") and any(k.arg == "glyphMap" for k in pc.keywords):
+                    continue
+                if is_mapping_walk or inner:
+                    walkers.append(f"{rel}:{getattr(n, 'lineno', None) or n.iter.lineno}")
+        ctx.ob("F12d", fx.where, f"`.{attr}` is rebuilt from the set s.glyphs: no table code walks it unsorted", not walkers, "" if not walkers else f"walked in dict order at {walkers[:3]}: output order depends on the hash seed")
     pb = repo.mod("colorLib/builder.py").func("populateCOLRv0")
     srt = [n for n in ast.walk(pb.node) if isinstance(n, ast.Call) and call_name(n) == "sorted" and "colorGlyphsV0.items()" in norm(n) and "glyphMap" in norm(n)]
     ok = bool(srt) and any(norm(t) == "glyphMap is not None" for t, pol in guard_conditions(srt[0]) if pol)
